@@ -59,8 +59,34 @@ def operand_not_exactly_one(g):
     return doc, insts, "operand-not-%d" % k
 
 
+def not_of_group(g):
+    """`$not` of a multi-instruction group ($and_any_order, $or, $and), followed by an item: the group must be judged as a
+    whole at the candidate instruction - an any-order group in a non-written order still counts as "X matches here" -"""
+    a, b, y = g.r.sample(["mov", "push", "pop", "add", "xor", "nop", "sub"], 3)
+    if g.chance(0.6):
+        y = g.pick([a, b])       # the item after the $not is one of the group's own: the interesting near misses
+    op = g.pick(["$and_any_order", "$and_any_order", "$or", "$and"])
+    doc = {"pattern": [{"$not": [{op: [a, b]}]}, y]}
+    first = g.pick([[a, b], [b, a], [a, a], [b, y], [y, b], [a, y]])
+    insts = [("4000", first[0], ["%rax"]), ("4003", y if g.chance(0.6) else first[1], ["%rbx"]), ("4006", first[1], ["%rcx"]), ("4009", y, ["%rdx"])]
+    if g.chance(0.6):
+        z = g.pick(["leave", "ret", y])
+        insts = [("4000", first[0], ["%rax"]), ("4003", first[1], ["%rbx"]), ("4006", z, ["%rcx"] if z == y else [])]
+    return doc, insts, "not-of-" + op
+
+
 def run(ctx, factor):
     rep = ctx.report
+    for _ in range(ctx.budget(30, 1000) * factor):
+        doc, insts, tag = not_of_group(ctx.g)
+        o = patdiff.observe(ctx, doc, insts, modes=("bool", "all", "first"))
+        usable = patdiff.correspondence(ctx, o)
+        if usable:
+            patdiff.spec_verdict(ctx, o)
+            patdiff.spec_scan(ctx, o)
+        rep.case(patdiff.case_of(o), usable, tags=[tag])
+        if rep.violations and factor > 1:
+            return
     for _ in range(ctx.budget(40, 1500) * factor):
         doc, insts, tag = operand_not_exactly_one(ctx.g)
         o = patdiff.observe(ctx, doc, insts, modes=("bool", "all", "first"))
